@@ -96,7 +96,9 @@ PROFILES.update({
                    sim_fixed_seed=True, p_nodelay_false=0.03)),
             # rank-based resource cap of PASHA needs several trials in its top rungs: larger runs
             (1, _p(world="mem", kinds=["hb_pasha", "hb_pasha", "hb_promotion", "hb_rush_promotion"], p_fault_free=0.8, p_ties=0.0, max_trials=45,
-                   fault_kinds=["crash"], p_nodelay_false=0.0, stop_fields=["max_num_trials_started"])), ],
+                   fault_kinds=["crash"], p_nodelay_false=0.0, stop_fields=["max_num_trials_started"])),
+            # multi-objective, per-metric modes, sparse reports and scripts that end between rung levels
+            (1, _p(world="mem", kinds=["moasha"], p_fault_free=0.8, p_ties=0.0, p_sparse_moasha=0.7, fault_kinds=["crash"], p_nodelay_false=0.0)), ],
 })
 FRESH = {"C11": {"hashseed": "5"}}
 PROFILES["C16"] = [
